@@ -1,7 +1,7 @@
 (** C16 — Polygon and multipatch constructors close and orient rings, losing
     no vertex.  Statements only; proofs in Proofs/PolygonCtor.v. *)
 From SF Require Import Model.Bytes Model.F64 Model.ShapeType Model.Shapes Model.Res Model.F64Arith Model.Construct.
-From SF Require Import Proofs.F64Order Proofs.BoxExact Proofs.PolygonCtor.
+From SF Require Import Proofs.F64Order Proofs.BoxExact Proofs.PolygonCtor Proofs.F64Exact.
 Open Scope Z_scope.
 
 (** What every polygon constructor (new, with_rings, and hence the macros)
@@ -67,6 +67,55 @@ Theorem C16_multipatch : forall (patches : list (pkind * list pt)) (s : shape),
             (if pkind_is_ring (fst p) then snd (close_patch p) = close_points XYZM (snd p) else snd (close_patch p) = snd p).
 Proof. intros patches s H. split; [apply mk_multipatch_patches, H|apply close_patch_spec]. Qed.
 Print Assumptions C16_multipatch.
+
+(** Orientation by EXACT signed area, on the exact domain: all X and Y of the
+    closed ring are finite doubles z * 2^e with one common exponent
+    -500 <= e <= 480 and integers |z| <= C such that
+    (number of vertices + 1) * 4 C^2 < 2^53 ([exact_domain]; e.g. integers up to
+    2^20 in rings of up to 2047 vertices, or any scaling of them by a power of
+    two).  There every IEEE operation of the shoelace evaluation is exact and
+    the orientation test IS the sign of the exact shoelace sum [sh2] (twice the
+    signed area, clockwise positive, in units of 2^(2e)). *)
+Theorem C16_test_is_exact_sign : forall (e C : Z) (ps : list pt) (zs : list (Z * Z)),
+  exact_domain e C ps zs -> ring_is_inner ps = (sh2 zs <? 0).
+Proof. intros e C ps zs [H1 H2 H3 H4 H5]. exact (ring_is_inner_exact e C ps zs H1 H2 H3 H4 H5). Qed.
+Print Assumptions C16_test_is_exact_sign.
+
+(** Reversal negates the exact area, so a ring of non-zero area is always told
+    from its mirror image... *)
+Theorem C16_area_of_reverse : forall zs, sh2 (rev zs) = - sh2 zs.
+Proof. exact sh2_rev. Qed.
+Print Assumptions C16_area_of_reverse.
+
+(** ...and the stored ring is the caller's closed ring or its reverse, still in
+    the exact domain, clockwise (sum >= 0) when declared Outer and
+    counter-clockwise (sum <= 0) when declared Inner, with the same non-zero
+    area magnitude: every outer ring clockwise, every inner ring
+    counter-clockwise by exact signed area, either order when the area is zero. *)
+Theorem C16_orientation_exact : forall (d : dim) (ring : role * list pt) (e C : Z) (zs : list (Z * Z)),
+  exact_domain e C (close_points d (snd ring)) zs ->
+  exists zs', exact_domain e C (snd (close_and_reorder d ring)) zs' /\
+              (zs' = zs \/ zs' = rev zs) /\
+              (fst ring = Outer -> 0 <= sh2 zs') /\ (fst ring = Inner -> sh2 zs' <= 0) /\
+              (sh2 zs <> 0 -> sh2 zs' <> 0).
+Proof. exact close_and_reorder_exact. Qed.
+Print Assumptions C16_orientation_exact.
+
+(** Rebuilding a polygon whose rings have non-zero (exact) area from its own
+    rings changes nothing. *)
+Theorem C16_idempotent_exact : forall (d : dim) (rings : list (role * list pt)) (s : shape),
+  mk_polygon d rings = Ok s ->
+  Forall (fun r => snd r <> [] /\ pt_nn d (hd pt0 (snd r)) /\ exact_nonzero d r) rings ->
+  mk_polygon d (rings_of s) = Ok s.
+Proof. exact mk_polygon_idempotent_exact. Qed.
+Print Assumptions C16_idempotent_exact.
+
+(** Non-vacuity of the exact domain: the closed counter-clockwise unit triangle. *)
+Example C16_exact_example :
+  let ps := [mkpt 0 0 0 0; mkpt one64 0 0 0; mkpt 0 one64 0 0; mkpt 0 0 0 0] in
+  let zs := [(0, 0); (1, 0); (0, 1); (0, 0)] in
+  exact_domain 0 1 ps zs /\ sh2 zs = -1.
+Proof. exact exact_domain_triangle. Qed.
 
 (** Non-vacuity: an open counter-clockwise triangle declared Outer is closed
     and reversed; a ring whose ends differ only in M is closed by a copy of its
